@@ -1,0 +1,21 @@
+//go:build verif
+
+// Contracts for the verification machinery in /verif (govc). Comment-only file.
+
+package balance
+
+//@ func (*payPerInterval).OnClient
+//@ property C03
+//@ let tot = store.spendable(b.Store, node.ID)
+//@ ensures [unset-min-never-refuses]  b.MinBalance == nil ==> err == nil
+//@ ensures [host-never-refused]       node.IsHost ==> !typeis(err, LowBalanceError)
+//@ ensures [at-or-above-not-refused]  b.MinBalance != nil && tot >= bigval(b.MinBalance) ==> !typeis(err, LowBalanceError)
+//@ ensures [below-refused]            b.MinBalance != nil && !node.IsHost && tot < bigval(b.MinBalance) ==> err != nil
+//@ ensures [accepted-means-enough]    err == nil && b.MinBalance != nil && !node.IsHost ==> tot >= bigval(b.MinBalance)
+//@ ensures [reports-actual]           typeis(err, LowBalanceError) ==> bigval(err.(LowBalanceError).CurrentBalance) == tot
+//@                                      && bigval(err.(LowBalanceError).MinBalance) == bigval(b.MinBalance)
+//@ witness isHost = node.IsHost
+//@ witness min = bigval(b.MinBalance)
+//@ witness minSet = b.MinBalance != nil
+//@ witness credit = b.Store.credit[b.Store.cell[node.ID]]
+//@ witness deposit = b.Store.deposit[b.Store.cell[node.ID]]
